@@ -10,7 +10,7 @@ CONSTANTS
   MaxItems = 0
   Addrs = {"4096"}
   Grows = {1, 2, 3}
-  NopKinds = {"1", "4", "u"}
+  NopKinds = {"1", "4"}
   VariantSet = "align"
   Rotate = 2
   Emit = TRUE
